@@ -1,7 +1,7 @@
 (** C12 — version and msize negotiation.  Only statements, each closed by [exact]
     of a lemma proved in Fs/VersionProofs.v, followed by Print Assumptions. *)
 From Coq Require Import NArith String List.
-From P9V Require Import Base.Str gen.ConstGen Fs.Version Fs.VersionProofs Fs.VersionDigits.
+From P9V Require Import Base.Str gen.ConstGen Fs.Version Fs.VersionProofs Fs.VersionDigits Fs.VersionText.
 Import ListNotations.
 Open Scope string_scope.
 Open Scope N_scope.
@@ -70,6 +70,36 @@ Theorem C12_reply_parses_back : forall msize s m v st,
              n <= p9_highestSupportedVersion /\ m = N.min msize p9_maximumLength /\ m <> 0).
 Proof. exact tversion_reply_parses. Qed.
 Print Assumptions C12_reply_parses_back.
+
+(** the server clause read off the text, independently of the model's parser and printer ([handle_clause]: the request
+    names a .L version iff it is "9P2000.L" or the Google prefix + digits with value below 2^32 by the elementary fold;
+    the reply's version must be CANONICAL as a string — plain "9P2000.L" or prefix + digits not starting with '0' — and
+    name min(N, highest); msize = min(requested, maximum); "unknown"/0 otherwise).  This predicate is what the check
+    evaluates on every observed Tversion/Rversion pair.  The two readings of the grammar coincide for every string, the
+    model's reply satisfies the clause for every request, and whatever satisfies the clause is pinned down as stated. *)
+Theorem C12_grammar_readings_agree : forall s,
+  dotL_number s = match parse_version s with Some (V9P2000L, n) => Some n | _ => None end.
+Proof. exact dotL_number_is_parse. Qed.
+Print Assumptions C12_grammar_readings_agree.
+Theorem C12_reply_is_clause : forall msize s,
+  let '((m, v), st) := tversion_handle msize s in handle_clause msize s m v st = true.
+Proof. exact handle_clause_model. Qed.
+Print Assumptions C12_reply_is_clause.
+Theorem C12_clause_meaning : forall msize s rm rv st,
+  handle_clause msize s rm rv st = true ->
+  (rm = 0 /\ rv = "unknown" /\ st = None /\ (msize = 0 \/ forall n, parse_version s <> Some (V9P2000L, n))) \/
+  (exists n, msize <> 0 /\ parse_version s = Some (V9P2000L, n) /\ rm = N.min msize p9_maximumLength /\
+             canonical rv = true /\ parse_version rv = Some (V9P2000L, N.min n p9_highestSupportedVersion) /\
+             st = Some (rm, N.min n p9_highestSupportedVersion)).
+Proof. exact handle_clause_names. Qed.
+Print Assumptions C12_clause_meaning.
+(** non-canonical spellings of a supported number are not canonical: echoing the request is refused by the clause *)
+Example C12_ex_echo_refused :
+  handle_clause 4096 "9P2000.L.Google.007" 4096 "9P2000.L.Google.007" (Some (4096, 7)) = false
+  /\ handle_clause 4096 "9P2000.L.Google.0" 4096 "9P2000.L.Google.0" (Some (4096, 0)) = false
+  /\ handle_clause 4096 "9P2000.L.Google.007" 4096 "9P2000.L.Google.7" (Some (4096, 7)) = true
+  /\ handle_clause 4096 "9P2000.L.Google.0" 4096 "9P2000.L" (Some (4096, 0)) = true.
+Proof. vm_compute. repeat split. Qed.
 
 (** whole sessions: every Tversion of a connection (first or later) is answered by the same function of the
     request alone, so it always gets its Rversion; the state is the one of the last accepted request *)
